@@ -6,6 +6,7 @@ import (
 	"encoding/json"
 	"errors"
 	"fmt"
+	"strings"
 	"testing"
 
 	pipeline "github.com/buildkite/go-pipeline"
@@ -311,4 +312,69 @@ func TestKnownFindings(t *testing.T) {
 		probe.F10("C09")
 		probe.F11("C09")
 	}
+}
+
+// ---------------------------------------------------------------------------
+// One matrix dimension can be written three ways (a bare list, `setup: [..]`, `setup: {"": [..]}`),
+// and marshalling picks the spelling: whatever a reader accepts in one spelling it must accept in the
+// spelling the writer chooses, for value lists of every length.
+
+var recSpell = ev.New("TestPropMatrixSpellings", "one command step whose matrix has value lists of 0-64 values (half of the lengths within 1 of 8, 10, 16, 20, 25, 32, 50, 64) in each spelling - bare list, `setup: [..]`, `setup: {\"\": [..]}`, named dimensions - with and without adjustments and an extra matrix key, values strings / integers / booleans: same oracle as TestPropFixpoint; non-trivial = more than 8 values; distinct by text")
+
+func TestPropMatrixSpellings(t *testing.T) {
+	curRec = recSpell
+	defer func() { curRec = rec }()
+	ev.Check(t, 600, 12000, func(t *rapid.T) {
+		n := rapid.IntRange(0, 64).Draw(t, "n")
+		if rapid.Bool().Draw(t, "round") {
+			n = rapid.SampledFrom([]int{8, 10, 16, 20, 25, 32, 50, 64}).Draw(t, "base") + rapid.IntRange(-1, 1).Draw(t, "off")
+		}
+		var vals []string
+		for i := 0; i < n; i++ {
+			switch rapid.IntRange(0, 5).Draw(t, "vk") {
+			case 0:
+				vals = append(vals, fmt.Sprint(i))
+			case 1:
+				vals = append(vals, "true")
+			default:
+				vals = append(vals, fmt.Sprintf("\"v%d\"", i))
+			}
+		}
+		list := "[" + strings.Join(vals, ", ") + "]"
+		spelling := rapid.IntRange(0, 3).Draw(t, "spelling")
+		adj := rapid.IntRange(0, 2).Draw(t, "adjustments") == 0
+		extra := rapid.IntRange(0, 3).Draw(t, "extra") == 0
+		var m string
+		switch spelling {
+		case 0:
+			m = list
+			adj, extra = false, false
+		case 1:
+			m = "{setup: " + list
+		case 2:
+			m = "{setup: {\"\": " + list + "}"
+		default:
+			m = "{setup: {os: " + list + ", arch: [amd64]}"
+		}
+		if spelling > 0 {
+			if adj {
+				if spelling == 3 {
+					m += ", adjustments: [{with: {os: extra, arch: arm64}, skip: true}]"
+				} else {
+					m += ", adjustments: [{with: extra, soft_fail: true}]"
+				}
+			}
+			if extra {
+				m += ", concurrency: 3"
+			}
+			m += "}"
+		}
+		text := []byte("steps:\n  - command: \"echo {{matrix}}\"\n    matrix: " + m + "\n")
+		g := doc.NewG(t, doc.Config{})
+		if _, ok := checkFixpoint(t, "YAML", text, g); !ok {
+			return
+		}
+		recSpell.Case(ev.HashBytes(text), n > 8, fmt.Sprintf("spelling=%d", spelling), fmt.Sprintf("adjustments=%v", adj), fmt.Sprintf("values>=%d", n/10*10))
+		recSpell.MaybeSample(n > 8, func() any { return string(text[:min(len(text), 400)]) })
+	})
 }
